@@ -436,7 +436,7 @@ def C16(tier):
     floors = {"cancel_cases": 5000 * (1 if tier == "quick" else 8), "epoll_unregistration_verified": 2000,
               }
     for p in ["before-activate", "right-after-activate", "from-own-handler", "from-item-on-serial-target", "foreign-while-events-flow",
-              "while-suspended", "double-cancel", "cancel_and_wait"]:
+              "while-suspended", "double-cancel", "cancel_and_wait", "from-registration-handler"]:
         floors["cancel_at_" + p] = 200
     for k in ["timer", "data_add", "read(pipe)", "read(socketpair)", "write(pipe)", "signal"]:
         floors["cancel_kind_" + k] = 300
